@@ -417,11 +417,21 @@ def vmx_unlock_history(ctx, rng):
             got = list(v.disks())
             got[:] = sorted(got)
             again = sorted(v.disks())
+            # another object parsed from the same text (before or after this one was unlocked) is a locked configuration of its own;
+            # a caller editing one object's dictionary does not edit the other's
+            other = VMX.parse(text)
+            hist.append(["disks-of-a-fresh-object", list(other.disks())])
+            v.attr["scsi0:5.filename"] = "added-by-the-caller.vmdk"
+            third = VMX.parse(text)
+            third.unlock_with_phrase("pw")
+            if sorted(third.disks()) != want:
+                hist.append(["disks", ["fresh object after a caller's edit of another:"] + sorted(third.disks())])
+            del v.attr["scsi0:5.filename"]
         except Exception as e:  # noqa: BLE001
             ctx.violation({"kind": "vmx", "fail": "raised", "sub": "unlock-history"}, {"error": repr(e)[:200], "history": hist})
             continue
         ctx.case(key=("vmx-unlock-history", k), nontrivial=True)
-        if any(h[0] == "disks" and h[1] for h in hist) or got != want or again != want:
+        if any(h[0].startswith("disks") and h[1] for h in hist) or got != want or again != want:
             ctx.violation({"kind": "vmx", "fail": "disk-list-history", "sub": "unlock-history"}, {"history": hist, "got": got, "again": again, "want": want})
 
 
